@@ -31,6 +31,14 @@ type divergence struct {
 	what string
 }
 
+// cont: the real database is still in the state the specification's
+// implementation layer predicts (a known defect reproduced exactly), so the
+// behaviour can be followed further.
+func (d divergence) cont() bool {
+	return strings.HasPrefix(d.key, "prune-not-atomic:") || d.key == "fidelity:region-past-block-end-served" ||
+		d.key == "power-loss:rollover-not-synced"
+}
+
 // ioEvent is one counted I/O call observed during a Commit.
 type ioEvent struct {
 	op  string
@@ -46,6 +54,7 @@ type world struct {
 	gen  int
 	db   database.DB
 	txs  map[string]database.Tx
+	curs map[string]*curState
 
 	// fault plan / recording, armed only while a Commit runs
 	armed      bool
@@ -253,6 +262,7 @@ func (w *world) shutdown() {
 	for h, tx := range w.txs {
 		_ = tx.Rollback()
 		delete(w.txs, h)
+		delete(w.curs, h)
 	}
 	if w.db != nil {
 		rffldb.VerifUninstall(w.db)
@@ -453,6 +463,7 @@ func (w *world) dumpBucket(b database.Bucket, path []string, out map[string]buck
 }
 
 type blockObs struct {
+	beyond  string // non-empty: a region reaching past the end of the block was served
 	has     bool
 	fetchOK bool   // all fetch variants returned the stored bytes
 	detail  string // what went wrong when !fetchOK
@@ -526,7 +537,13 @@ func (w *world) observeBlock(tx database.Tx, name string) blockObs {
 			return o
 		}
 	}
-	w.evals += 6
+	// a region that reaches past the end of the block (RawLen in the
+	// specification) must be refused, never served
+	past := database.BlockRegion{Hash: &h, Offset: uint32(len(raw) - 1), Len: 2}
+	if b, err := tx.FetchBlockRegion(&past); err == nil {
+		o.beyond = fmt.Sprintf("FetchBlockRegion(offset %d, len 2) of a %d byte block returned %x instead of an error", past.Offset, len(raw), b)
+	}
+	w.evals += 7
 	o.class, o.fetchOK = "ok", true
 	return o
 }
@@ -615,10 +632,11 @@ type specView struct {
 	kv  map[string]bucketDump
 	blk map[string]bool
 	io  map[string]bool
+	ior map[string]bool // subset of io: the file was closed by a roll-over without Sync
 }
 
 func readSpecView(v tla.Value) specView {
-	s := specView{kv: map[string]bucketDump{}, blk: map[string]bool{}, io: map[string]bool{}}
+	s := specView{kv: map[string]bucketDump{}, blk: map[string]bool{}, io: map[string]bool{}, ior: map[string]bool{}}
 	ks, vs := fnEntries(v.F("kv"))
 	for i := range ks {
 		var d bucketDump
@@ -634,6 +652,11 @@ func readSpecView(v tla.Value) specView {
 	if v.Has("io") {
 		for _, b := range v.F("io").Set() {
 			s.io[b.Str()] = true
+		}
+	}
+	if v.Has("ior") {
+		for _, b := range v.F("ior").Set() {
+			s.ior[b.Str()] = true
 		}
 	}
 	return s
@@ -739,7 +762,11 @@ func (w *world) compareView(real viewDump, spec specView, prefix, where, ctxKey 
 			if o.has && o.class == "error" {
 				if !w.reported[b] {
 					w.reported[b] = true
-					divs = append(divs, divergence{"prune-not-atomic:" + ctxKey, fmt.Sprintf("%s: block %s is listed (HasBlock=true) but cannot be fetched: %s", where, b, o.detail)})
+					key := "prune-not-atomic:" + ctxKey
+					if spec.ior[b] {
+						key = "power-loss:rollover-not-synced"
+					}
+					divs = append(divs, divergence{key, fmt.Sprintf("%s: block %s is listed (HasBlock=true) but cannot be fetched: %s", where, b, o.detail)})
 				}
 			} else if o.class == "ok" && o.has {
 				w.drift = fmt.Sprintf("%s: specification predicts block %s unreadable, real database serves it", where, b)
@@ -747,6 +774,10 @@ func (w *world) compareView(real viewDump, spec specView, prefix, where, ctxKey 
 				divs = append(divs, divergence{"fidelity:block", fmt.Sprintf("%s: block %s: HasBlock=%v fetch=%s %s; specification: stored", where, b, o.has, o.class, o.detail)})
 			}
 		case want:
+			if o.beyond != "" && !w.reported["beyond"] {
+				w.reported["beyond"] = true
+				divs = append(divs, divergence{"fidelity:region-past-block-end-served", fmt.Sprintf("%s: block %s: %s", where, b, o.beyond)})
+			}
 			if !o.has || o.class != "ok" {
 				k := "fidelity:block"
 				if o.class == "notfound" || !o.has {
